@@ -310,9 +310,12 @@ LiftLaw == Static => \A k \in 1..3 : Fits(sh, k) =>
           /\ \A u \in cand : (u < v => TVal(sh, k, 0, u) < w)
 \* the combination, on the expectations themselves, in every state: judging the transformed behaviour with
 \* TransExpect of the printed expectation is judging it with the expectation of the transformed shape and values
-ExpectLaw == \A p \in LawPairs : Fits(sh, p[1] + p[2]) =>
-    LET q == Obs(bags) IN
-    Expect(TShape(sh, p[1], p[2]), TSeq(sh, p[1], p[2], q)) = TransExpect(sh, p[1], p[2], Expect(sh, q))
+\* (with the full candidate sets the pairs that only repeat a static law at a larger exponent are left out: cost)
+ExpectPairs == IF CandKind = "all" THEN {<<0, 1>>, <<1, 0>>, <<1, 1>>, <<1, 2>>, <<2, 1>>} ELSE LawPairs
+ExpectLaw == LET q == Obs(bags)
+                 e == Expect(sh, q) IN
+             \A p \in ExpectPairs : Fits(sh, p[1] + p[2]) =>
+                 Expect(TShape(sh, p[1], p[2]), TSeq(sh, p[1], p[2], q)) = TransExpect(sh, p[1], p[2], e)
 Laws == ScaleLaw /\ LiftLaw /\ ExpectLaw
 \* Expect and TransExpect work element by element (and on the first element for minlo), so ExpectLaw over every
 \* multiset of two candidate values (canon2_all, canon3_all, hisf_core2, law, merge3, boundary_full3, sim_hisf) covers
